@@ -937,6 +937,35 @@ pub fn build(seed: u64, size: usize) -> Pool {
         }
         pushf(&mut ops, Op::LonLatToCell { lon: F::of(10.0), lat: F::of(10.0), res: 5 }, 255, fam);
     }
+    // (n) state pumps: tens of thousands of DISTINCT cells through one function, next to ordinary
+    //     calls on the first, a middle and the last of those cells (caches with a capacity)
+    cur_type = b'n';
+    for f in 0..6u8 {
+        let &(c, g) = rng.pick(&base_cells);
+        let r = a5::get_resolution(c);
+        if !(2..=19).contains(&r) {
+            continue;
+        }
+        fam += 1;
+        fam_types.push(cur_type);
+        let depth = if f == 4 { 6 } else { 8 } + rng.below(2) as u8; // 4^8 = 65 536 or 4^9 (lookups: 4^6..4^7)
+        pushf(&mut ops, Op::Pump { f, root: c, depth }, g, fam);
+        let d = a5::core::serialization::deserialize(c);
+        if let Ok(d) = d {
+            let levels = depth as u32;
+            for pos in [0u64, 1, 2, (1u64 << (2 * levels)) / 2, (1u64 << (2 * levels)) - 1] {
+                let kid = a5::core::utils::A5Cell { origin_id: d.origin_id, segment: d.segment, s: (d.s << (2 * levels)) + pos, resolution: d.resolution + levels as i32 };
+                if let Ok(k) = a5::core::serialization::serialize(&kid) {
+                    pushf(&mut ops, Op::CellToLonLat { cell: k }, g, fam);
+                    pushf(&mut ops, Op::CellToBoundary { cell: k, closed: false, segments: Some(1) }, g, fam);
+                    if f >= 2 {
+                        pushf(&mut ops, Op::CellToParent { cell: k, res: None }, g, fam);
+                        pushf(&mut ops, Op::Deserialize { cell: k }, g, fam);
+                    }
+                }
+            }
+        }
+    }
     cur_type = b'j';
     // (j) list-valued arguments: the same elements in another order, rotated, reversed, with a
     //     repeated closing element (an order-insensitive key or hash would confuse them)
